@@ -478,6 +478,18 @@ func init() {
 		i := int(in.concInt(a[1], "row index"))
 		return db.rows[i][db.colIndex("key_record")]
 	})
+	reg("verifh/vx.SQLRowID", func(in *Interp, fr *frame, a []Value) Value {
+		db := in.sqlDBOf(a[0])
+		return db.rows[int(in.concInt(a[1], "row index"))][db.colIndex("id")]
+	})
+	reg("verifh/vx.SQLRowCreated", func(in *Interp, fr *frame, a []Value) Value {
+		db := in.sqlDBOf(a[0])
+		t := db.rows[int(in.concInt(a[1], "row index"))][db.colIndex("created")].(TimeV)
+		if t.Nsec.T != nil || t.Nsec.C != 0 {
+			in.goPanic("created column holds a timestamp with fractional seconds")
+		}
+		return t.Sec
+	})
 	reg("verifh/vx.SQLInsertRaw", func(in *Interp, fr *frame, a []Value) Value {
 		db := in.sqlDBOf(a[0])
 		sec := a[2].(BV)
